@@ -623,6 +623,7 @@ Token *tokenize(File *file) {
     // UTF-32 character literal
     if (startswith(p, "U'")) {
       cur = cur->next = read_char_literal(p, p + 1, ty_uint);
+      cur->val = (uint32_t)cur->val;
       p += cur->len;
       continue;
     }
